@@ -392,7 +392,8 @@ func (c *Chain) SeedAppchain(chainID, adminAddr, ruleAddr string, ruleStatus gov
 // SeedService registers chainID:serviceID as a service with the given status and ordering.
 func (c *Chain) SeedService(chainID, serviceID string, ordered bool, status governance.GovernanceStatus, blacklist map[string]struct{}) {
 	svc := &servicemgr.Service{ChainID: chainID, ServiceID: serviceID, Name: "svc-" + chainID + "-" + serviceID, Type: "CallContract", Ordered: ordered,
-		Permission: blacklist, Status: status, Details: "seeded", Intro: "seeded"}
+		Permission: blacklist, Status: status, Details: "seeded", Intro: "seeded",
+		EvaluationRecords: map[string]*governance.EvaluationRecord{}, InvokeRecords: map[string]*governance.InvokeRecord{}}
 	if svc.Permission == nil {
 		svc.Permission = map[string]struct{}{}
 	}
